@@ -35,6 +35,12 @@ class Base(desper.Processor):
     def __repr__(self):
         return self.label
 
+    def __hash__(self):
+        # deterministic (labels are strings, PYTHONHASHSEED is fixed): the
+        # iteration order of desper's listener sets must not depend on
+        # object addresses, or replays of one history could differ
+        return hash(self.label)
+
 
 class P1(Base):
     pass
